@@ -109,6 +109,7 @@ structure Ctl where
   -- RendezvousConnector
   wsOpen : Bool := false           -- `_ws` is set
   halfOpen : Bool := false       -- a TCP connection exists, its WebSocket handshake has not finished
+  wsClosing : Bool := false      -- the websocket has left the OPEN state (closing handshake begun): sendMessage refuses
   everConnected : Bool := false    -- `_have_made_a_successful_connection`
   stopping : Bool := false         -- `_stopping`
   stopPending : Bool := false      -- stopService() called, its Deferred not fired yet
@@ -349,7 +350,12 @@ def exec (s : RunSt) (it : Item) (a : Arg) : StepR :=
       else .cont s []
     | .deliver => if c.sKey then .cont s [(.M .add_message, { a with ph := .num })] else .fail s (.assertion "self._key")
   -- ---- glue
-  | .tx cmd => if c.wsOpen then .cont (emit s (.tx cmd)) [] else .fail s (.assertion "self._ws")
+  | .tx cmd =>
+    -- `assert self._ws`; then `try: self._ws.sendMessage(...) except Disconnected: pass` — a websocket that is
+    -- already closing refuses the frame, which is simply not sent (the machines re-send what was not answered)
+    if !c.wsOpen then .fail s (.assertion "self._ws")
+    else if c.wsClosing then .cont s []
+    else .cont (emit s (.tx cmd)) []
   | .rcStop =>
     -- RendezvousConnector.stop: _stopping = True; d = stopService(); d.addBoth(self._stopped).
     -- ClientService.stopService() fires at once when there is no connection, otherwise after the
@@ -420,7 +426,7 @@ inductive Event where
   | hRefresh | hNameplateCompletions | hChooseNameplate (valid : Bool) | hWordCompletions | hChooseWords
   | send | close
   -- connection
-  | tcpUp | wsOpen | wsClose | wsFail | failInitial | svcStopped
+  | tcpUp | wsOpen | wsClosing | wsClose | wsFail | failInitial | svcStopped
   -- server → client frames
   | welcome (err : Bool) | claimed | released | closedResp | allocated | nameplates | ack | serverError
   | message (side : Side) (ph : PhaseC) (new : Bool) (good : Bool) (pake : PakeKind)
@@ -473,15 +479,18 @@ def step (c : Ctl) : Event → Ctl × List Obs × Outcome
     -- the ClientService has a TCP connection, the WebSocket negotiation is under way: nothing is told to anybody
     -- (whenConnected's Deferred fires, RendezvousConnector only hangs an errback on it)
     if c.wsOpen || c.halfOpen then (c, [], .ok) else ({ c with halfOpen := true }, [], .ok)
+  | .wsClosing =>
+    -- the server begins the closing handshake: nothing is told to anybody yet (onClose comes with the loss)
+    if c.wsOpen then ({ c with wsClosing := true }, [], .ok) else (c, [], .ok)
   | .wsOpen =>
     -- ws_open: _have_made_a_successful_connection, _ws, then try: bind; N/M/L/A.connected()
-    guarded { c with wsOpen := true, halfOpen := false, everConnected := true }
+    guarded { c with wsOpen := true, halfOpen := false, wsClosing := false, everConnected := true }
       [(.tx .bind, {}), (.N .connected, {}), (.M .connected, {}), (.L .connected, {}), (.A .connected, {})]
   | .wsClose =>
     -- ws_close: was_open = bool(_ws); _ws = None; if was_open: N/M/L/A.lost()   (no handler: an
     -- exception here escapes to Twisted).  A close without any prior open is the event `wsFail`.
     if !c.wsOpen then (c, [], .ok)
-    else match api { c with wsOpen := false } [(.N .lost, {}), (.M .lost, {}), (.L .lost, {}), (.A .lost, {})] with
+    else match api { c with wsOpen := false, wsClosing := false } [(.N .lost, {}), (.M .lost, {}), (.L .lost, {}), (.A .lost, {})] with
       | (c2, obs, .apiError e) => (c2, obs, .internal e)
       | r => r
   | .wsFail =>
@@ -515,7 +524,7 @@ def step (c : Ctl) : Event → Ctl × List Obs × Outcome
                           ++ [(.T .stoppedRC, {})]
                           ++ (if c.halfOpen && !c.wsOpen && !c.everConnected then [(.B .k_error, { verdict := .connectionError })] else [])
       let pre : List Obs := if c.halfOpen && !c.wsOpen && !c.everConnected then [.stopService] else []
-      match api { c with stopPending := false, wsOpen := false, halfOpen := false } ag with
+      match api { c with stopPending := false, wsOpen := false, halfOpen := false, wsClosing := false } ag with
       | (c2, obs, .apiError e) => (c2, pre ++ obs, .internal e)
       | (c2, obs, oc) => (c2, pre ++ obs, oc)
   | .welcome err =>
